@@ -231,9 +231,15 @@ struct Base {
 fn bases() -> Vec<Base> {
     let mut out = Vec::new();
     let mut rng = Rng::new(0xBA5E);
-    for (fat32, start) in [(false, 63u32), (true, 2048), (false, 0xFFF0_0000), (true, 0xFFF0_0000), (false, 1), (true, 1)] {
+    for (k, (fat32, start)) in [(false, 63u32), (true, 2048), (false, 0xFFF0_0000), (true, 0xFFF0_0000), (false, 1), (true, 1), (false, 2048), (true, 63)].into_iter().enumerate() {
         let mut g = if fat32 { Geom::base_fat32(65525 + 300, 1) } else { Geom::base_fat16(4085 + 300, 2) };
         g.part_start = start;
+        // vary the small fields too: sums that are one mutation away from wrapping differ per base
+        g.nfats = if k % 2 == 0 { 1 } else { 2 };
+        if k >= 4 {
+            g.reserved = if fat32 { 2 } else { 1 };
+            g.root_entries = if fat32 { 0 } else { 16 };
+        }
         g.part_slot = rng.usize_below(4);
         g.neighbours = false;
         let mut f = Fmt::new(g, Rng::new(7));
@@ -304,7 +310,7 @@ fn set_field(img: &mut Image, blk: u32, off: usize, w: usize, val: u32) {
 
 fn boundary_values(w: usize) -> Vec<u32> {
     let max: u32 = if w >= 4 { u32::MAX } else { (1u32 << (8 * w)) - 1 };
-    let mut v = vec![0, 1, max, max - 1, max / 2 + 1, 2];
+    let mut v = vec![0, 1, max, max - 1, max / 2 + 1, 2, max.saturating_sub(2), max.saturating_sub(32), max.saturating_sub(33), max.saturating_sub(513)];
     v.dedup();
     v
 }
@@ -354,7 +360,7 @@ pub fn run(ctx: &Ctx) -> i32 {
                 rep.distinct_extra += 1;
                 // pairwise on top
                 for &(s2, o2, w2) in fl.iter().skip(i + 1) {
-                    for v2 in boundary_values(w2).into_iter().take(4) {
+                    for v2 in boundary_values(w2).into_iter() {
                         let mut img2 = img.clone();
                         set_field(&mut img2, sector_of(&b.g, s2), o2, w2, v2);
                         let case = || J::obj().set("base", b.g.describe()).set("mutation", format!("sector {} off {} w{} := {:#x}; sector {} off {} w{} := {:#x}", s1, o1, w1, v1, s2, o2, w2, v2));
